@@ -98,6 +98,23 @@ fn build(args: BuildArgs) -> anyhow::Result<Option<usize>> {
     Ok(Some(tasks_run + work.tasks_run))
 }
 
+/// In-process entry point for the verification harness (feature "verif" only): runs the
+/// real `build` with the given options, bypassing only command line parsing.
+#[cfg(feature = "verif")]
+pub fn verif_build(
+    options: work::Options,
+    build_filename: Option<String>,
+    targets: Vec<String>,
+) -> anyhow::Result<Option<usize>> {
+    build(BuildArgs {
+        fake_ninja_compat: false,
+        options,
+        build_filename,
+        targets,
+        verbose: false,
+    })
+}
+
 fn default_parallelism() -> anyhow::Result<usize> {
     // Ninja uses available processors + a constant, but I don't think the
     // difference matters too much.
